@@ -21,13 +21,13 @@ P = {
    "In-use FAT entries == reachable chains whenever no file is open; out-of-space errors must not be premature (vs. a FAT scan before the call); fill-to-full / release / refill cycles check that the bytes accepted equal the free capacity in every cycle, that they read back and that delete/truncate return every cluster.",
    "Trusts the independent FAT scan."),
  "C06": ("exploration", "dirgen", "4.6", "PBT over byte-level directory contents, differential against independent reader",
-   "Byte-level generated directories (live/deleted/LFN/label/junk slots, end markers followed by stale slots, multi-cluster fragmented chains, FAT16 roots, FAT32 roots anywhere) listed and looked up through the crate and through the independent reader, including every sub-directory an entry designates and its way back; then after create/delete/mkdir histories.",
+   "Byte-level generated directories (live/deleted/LFN/junk slots, labels that share their name with files or directories, sub-directory entries with start clusters outside the volume, end markers followed by stale slots, multi-cluster fragmented chains, FAT16 roots, FAT32 roots anywhere) listed and looked up through the crate and through the independent reader, including every sub-directory an entry designates and its way back; then after create/delete/mkdir histories.",
    "Trusts the independent reader's listing rules (FAT specification)."),
  "C07": ("exploration", "fsx", "4.7", "stateful PBT against a decision table from the Mode/Error documentation",
    "Open/delete/mkdir/open_dir/write matrix in arbitrary prior states; exact variants where documented, any-error where not; refused calls must leave the medium byte-identical.",
    "Decision table derived from doc comments; cells the docs leave open accept any error."),
  "C08": ("exploration", "handles", "4.8", "stateful PBT over handle-set model, 12 limit configurations, enumerated stale-handle and re-entrant calls",
-   "Open/close histories over 12 (dirs,files,volumes) limit configurations with id offsets near u32::MAX; every method is called with stale handles and re-entrantly from iteration callbacks.",
+   "Open/close histories over 12 (dirs,files,volumes) limit configurations with id offsets near u32::MAX and, through hook H3, with the handle counter brought round to a handle that is still open; every method (embedded-io adapters with in- and out-of-range arguments included) is called with stale handles and re-entrantly from iteration callbacks.",
    "12 of 512 limit configurations (every value 1..8 in every position)."),
  "C09": ("fault_enumeration", "crash", "4.9", "PBT histories x exhaustive crash-point enumeration over the write log",
    "For every generated history, every prefix of the block-write sequence after each successful flush/close is materialised and read by the independent reader (and a fresh mount) until the file is next modified.",
@@ -39,7 +39,7 @@ P = {
    "Each generated history is re-run with a transient fault (scribbled read buffer) at every device-call index, plus dead-device and multi-fault variants; the faulted call must return Err, handles stay usable, read-only calls succeed on retry, no duplicate names; every device call of Volume::close() fails in turn and the volume must be openable again.",
    "Fault model: a failing call returns Err to the crate and has no effect on the medium."),
  "C12": ("exploration", "sdsim", "5.1", "model-based PBT against a simulated SD card written from the SD specification",
-   "Card kind x CRC x capacity x timings x read/write sequences; card memory == model everywhere; multi-block == singles; capacity == CSD formula for the register's structure version; busy after the stop token as long as after any block and starting one byte late; transfers behind the last block must be refused without touching the card.",
+   "Card kind x CRC x capacity x timings x read/write sequences; card memory == model everywhere; multi-block == singles; capacity == CSD formula for the register's structure version; busy after the stop token as long as after any block and starting one byte late; cards that use the byte times the timing table grants them (N_WR, N_RC), keep status error bits until read, and report out-of-range only in the status; transfers behind the last block must be refused without touching the card, transfers running over the end must fail having stored what lies in front of it.",
    "Trusts the simulated card (independent command table, CRCs and CSD encoders)."),
  "C13": ("fault_enumeration", "sdsim", "5.2", "PBT sequences x enumerated bit flips / dead / busy / garbage positions",
    "Every single-bit flip of a data block + CRC (enumerated), every bit of the CSD block with CRC off (enumerated), bursts, wrong tokens, rejected writes, wrong CMD8 echo, SPI errors and dead/busy/garbage cards from generated byte positions; Ok only with correct data; Err where the property requires it; recovery after power-cycle; SPI byte budget per driver call enforced by the card.",
